@@ -566,10 +566,10 @@ def run_shard(spec):
 
 def check_floors(counters, evaluations, tier):
     msgs = []
-    if counters.get('stubborn-worker', 0) < 0.2 * evaluations:
+    if counters.get('stubborn-worker', 0) < 0.1 * evaluations:
         msgs.append("stubborn worker in only %d of %d cases" % (
             counters.get('stubborn-worker', 0), evaluations))
-    if counters.get('fault-fired', 0) < 0.2 * evaluations:
+    if counters.get('fault-fired', 0) < 0.1 * evaluations:
         msgs.append("fault fired in only %d of %d cases" % (
             counters.get('fault-fired', 0), evaluations))
     return msgs
